@@ -3,7 +3,7 @@
     r1_* / s1_* are the Gallina translations regenerated from /repo on every run. *)
 From Coq Require Import Reals Floats Bool.
 From Geo Require Import Base.GoPrim Base.F64 Gen.R1 Gen.S1 Proofs.C19_R1.
-From Geo Require Import Gen.R2 Gen.S2Rect Gen.S2Cap Proofs.C19_R2 Proofs.C19_S2Rect Proofs.C19_Expanded Proofs.C19_Cap Proofs.C19_S1_Expanded Proofs.C19_S2Rect_Expanded.
+From Geo Require Import Gen.R2 Gen.S2Rect Gen.S2Cap Proofs.C19_R2 Proofs.C19_S2Rect Proofs.C19_Expanded Proofs.C19_Cap Proofs.C19_S1_Expanded Proofs.C19_Remainder Proofs.C19_S2Rect_Expanded.
 From Geo Require Import Proofs.C19_S1 Proofs.C19_S1_Union Proofs.C19_S1_Inter Proofs.C19_S1_Rel Proofs.C19_S1_Ops.
 Local Open Scope R_scope.
 
@@ -431,41 +431,55 @@ Proof. exact cap_complement_covers_under_H. Qed.
 Print Assumptions cap_complement_covers_H.
 
 (** s1.Interval.Expanded / s2.Rect.expanded --------------------------------
-    FINDING: "expansion by a non-negative margin keeps every original point" is false of
-    s1.Interval.Expanded as it is: when Length + 2*margin + 2*dblEpsilon evaluates to one ulp
-    below 2*pi the result is a single point. *)
-Theorem s1_expanded_keeps_everything_refuted : exists i m p,
+    History: before /repo commit 44b3e8d the full-circle guard added 2*dblEpsilon (half an ulp of
+    2*pi) and Expanded returned a single point one ulp below it. *)
+Theorem s1_expanded_keeps_everything_old_refuted : exists i m p,
   s1_Interval_IsValid i = true /\ PrimFloat.leb 0%float m = true /\
   s1_Interval_Contains i p = true /\
+  s1_Interval_Contains (s1_Interval_Expanded_old i m) p = false.
+Proof. exact s1_expanded_old_refuted. Qed.
+Print Assumptions s1_expanded_keeps_everything_old_refuted.
+
+(** FINDING (present): Length() is -1 for the valid non-empty interval {pi, succ(-pi)}, so the
+    guard does not fire for margins in [pi, pi+1/2) and the result loses every point. *)
+Theorem s1_expanded_keeps_everything_refuted : exists i m p,
+  s1_Interval_IsValid i = true /\ s1_Interval_IsEmpty i = false /\ PrimFloat.leb 0%float m = true /\
+  s1_Interval_Contains i p = true /\
+  PrimFloat.ltb (s1_Interval_Length i) 0%float = true /\
   s1_Interval_IsValid (s1_Interval_Expanded i m) = true /\
   s1_Interval_Contains (s1_Interval_Expanded i m) p = false.
 Proof. exact s1_expanded_refuted. Qed.
 Print Assumptions s1_expanded_keeps_everything_refuted.
 
-(** outside that one-ulp zone ([exp_safe]: empty, or the guard fires, or its value is at least
-    two ulps below 2*pi) and under the named hypothesis H_S1EXPAND (there the two wrapped
-    endpoints enclose the original arc: float expressions and reals only) the property holds;
-    the theorems add the code's branching and the normalisations of -pi. *)
-Theorem s1_expanded_keeps_everything_H : H_S1EXPAND -> forall i m x,
-  valid_s1 i -> nonnan m -> 0 <= rank m -> exp_safe i m -> inrange x ->
-  mem_s1 i x -> mem_s1 (s1_Interval_Expanded i m) x.
-Proof. exact s1_expanded_sound_under_H. Qed.
-Print Assumptions s1_expanded_keeps_everything_H.
+(** Outside that case ([len_ok]: Length() >= 0, or margin <= 3) the property holds for every valid
+    interval and every non-NaN margin >= 0 (+Inf included) — closed: Flocq rounding analysis of
+    the 16*dblEpsilon guard and of the two endpoint computations, and exactness of
+    math.Remainder(x, 2*pi) proved from its definition (Proofs/C19_Remainder.v). *)
+Theorem s1_expanded_keeps_everything : forall i m x,
+  valid_s1 i -> nonnan m -> 0 <= rank m -> len_ok (s1_Interval_Lo i) (s1_Interval_Hi i) m ->
+  inrange x -> mem_s1 i x -> mem_s1 (s1_Interval_Expanded i m) x.
+Proof. exact s1_expanded_sound. Qed.
+Print Assumptions s1_expanded_keeps_everything.
 
-Theorem s1_expanded_valid_H : H_S1EXPAND -> forall i m,
-  valid_s1 i -> nonnan m -> 0 <= rank m -> exp_safe i m -> valid_s1 (s1_Interval_Expanded i m).
-Proof. exact s1_expanded_valid_under_H. Qed.
-Print Assumptions s1_expanded_valid_H.
+Theorem s1_expanded_valid : forall i m,
+  valid_s1 i -> nonnan m -> 0 <= rank m -> len_ok (s1_Interval_Lo i) (s1_Interval_Hi i) m ->
+  valid_s1 (s1_Interval_Expanded i m).
+Proof. exact C19_Remainder.s1_expanded_valid. Qed.
+Print Assumptions s1_expanded_valid.
 
-Theorem s2rect_expanded_keeps_everything_H : H_S1EXPAND -> forall r mg lat x,
+Theorem remainder_two_pi_exact : H_REMAINDER.
+Proof. exact remainder_exact. Qed.
+Print Assumptions remainder_two_pi_exact.
+
+Theorem s2rect_expanded_keeps_everything : forall r mg lat x,
   valid_s2rect r -> vlat lat -> inrange x ->
   nonnan (s2_LatLng_Lat mg) -> 0 <= rank (s2_LatLng_Lat mg) ->
   nonnan (s2_LatLng_Lng mg) -> 0 <= rank (s2_LatLng_Lng mg) ->
-  exp_safe (s2_Rect_Lng r) (s2_LatLng_Lng mg) ->
+  len_ok (s1_Interval_Lo (s2_Rect_Lng r)) (s1_Interval_Hi (s2_Rect_Lng r)) (s2_LatLng_Lng mg) ->
   wf1 (r1_Interval_Expanded (s2_Rect_Lat r) (s2_LatLng_Lat mg)) ->
   mem_s2rect r lat x -> mem_s2rect (s2_Rect_expanded r mg) lat x.
-Proof. exact s2rect_expanded_sound_under_H. Qed.
-Print Assumptions s2rect_expanded_keeps_everything_H.
+Proof. exact s2rect_expanded_sound. Qed.
+Print Assumptions s2rect_expanded_keeps_everything.
 
 (** FINDING: "all results are valid values" is false of Cap.Union as it is (NaN centre for two
     valid caps with nearly antipodal centres and a subnormal coordinate). *)
